@@ -46,6 +46,8 @@ AREA_SETS = [
     "16:4:rw:CR-|20:4:rw:M", "16:4:rws:M|20:4:rw:M", "16:4:r:M|20:4:w:M", "16:4:rw:M|20:4:rw:M|28:2:rw:M", "16:4:rw:M|16:4:rw:M",
     # reserved areas (neither memory nor callbacks) in front of, between and behind others; only reserved areas
     # (placed where no register of the layouts below lies: a register in an area without read callback is outside the statements, see DESIGN 0.3)
+    # areas at address 0, also empty ones (base + size - 1 must not be computed for them)
+    "0:0:rw:M|16:4:rw:M", "0:0:rw:CRW|16:8:rw:M", "0:4:rw:M|16:4:rw:M", "0:0:rw:M|0:4:rw:M|16:4:rw:M",
     "4:4:rw:C--|16:4:rw:M", "16:4:rw:M|20:4:rw:M|40:4:rw:C--", "4:4:r:C--|16:4:rw:M|24:4:rw:M|40:2:rw:C--", "40:8:rw:C--",
 ]
 TYPES_BY_SIZE = {1: ["u16", "s16"], 2: ["u32", "f32"], 4: ["u64", "f64"]}
